@@ -3615,7 +3615,11 @@ func (vm *Thread) opSelect() value.Value {
 		}
 	}
 
-	chosenCaseIndex, val, channelOpen := reflect.Select(reflectSelectCases)
+	chosenCaseIndex, val, channelOpen, closedSend := selectRecoverClosedSend(reflectSelectCases)
+	if closedSend {
+		// like `ch << v`, pushing to a closed channel throws an error
+		return value.ChannelClosedPushError.ToValue()
+	}
 	if chosenCaseIndex == 0 {
 		return value.ExecutionAbortedError.ToValue()
 	}
@@ -3626,7 +3630,7 @@ func (vm *Thread) opSelect() value.Value {
 
 	if !channelOpen {
 		var result value.Result
-		if chosenCase.Direction == reflect.SelectSend {
+		if chosenCase.Direction == reflect.SelectRecv {
 			result = value.MakeErrResult(value.ChannelClosedPopError.ToValue())
 		} else {
 			result = value.MakeErrResult(value.ChannelClosedPushError.ToValue())
@@ -3669,6 +3673,23 @@ func (vm *Thread) opSelect() value.Value {
 	}
 
 	return value.Undefined
+}
+
+// Calls `reflect.Select`. Go panics when the chosen case sends to a closed channel,
+// this is reported through `closedSend` instead.
+func selectRecoverClosedSend(cases []reflect.SelectCase) (chosen int, recv reflect.Value, recvOK bool, closedSend bool) {
+	defer func() {
+		if r := recover(); r != nil {
+			if err, ok := r.(error); ok && err.Error() == "send on closed channel" {
+				closedSend = true
+				return
+			}
+			panic(r)
+		}
+	}()
+
+	chosen, recv, recvOK = reflect.Select(cases)
+	return chosen, recv, recvOK, false
 }
 
 func (vm *Thread) opExecDefer() value.Value {
